@@ -115,3 +115,15 @@ def csvRead (text : List Char) (field : String) (missing : Option Rat) (integer 
         .ok { dtype := if integer then .int else .float, shape := [vs.length], cells := cells }
 
 end MPilot
+
+namespace MPilot
+
+/-- `EEMSWrite.execute` of the CSV library: the header row of result names in the listed order, then one row per cell - row `i` holds cell `i`
+of every result (`numpy.ma.array(arrays).transpose([1, 0])`).  `cols` are the results' cells as text (how a number is rendered is Python's business) -/
+def csvTableRows (names : List String) (cols : List (List String)) : List (List String) :=
+  names :: (List.range (cols.head?.map List.length |>.getD 0)).map fun i => cols.map fun c => c.getD i ""
+
+def csvWriteTable (names : List String) (cols : List (List String)) : String :=
+  String.ofList ((csvTableRows names cols).flatMap fun r => (csvWriteRow r).toList)
+
+end MPilot
